@@ -10,7 +10,10 @@ use std::sync::{Arc};
 use crate::verif::sync::{Arc};
 use std::marker::{PhantomData};
 use futures::prelude::*;
+#[cfg(not(desync_verif))]
 use futures::channel::oneshot;
+#[cfg(desync_verif)]
+use crate::verif::oneshot;
 use futures::future::{Future, BoxFuture};
 
 use std::cell::{UnsafeCell};
